@@ -471,4 +471,33 @@ mod vk_iter {
         if fin { drop(it); } else { let s = it.into_seq_iter(); drop(s); }
         chk_iter_ledger(len, &delivered);
     }
+
+    // C10 for the wrapped iterator: into_seq_iter hands back the wrapped iterator, which has advanced exactly past the delivered items
+    // @harness name=iter_into_seq props=C10,C04,C01 kind=bounded bound="source of length <= 4; up to 2 single pulls and one chunk / buffered pull of size 2 (possibly overshooting) before the conversion; sequential"
+    #[kani::proof]
+    #[kani::unwind(7)]
+    fn iter_into_seq() {
+        let len: usize = kani::any();
+        kani::assume(len <= 4);
+        let it = ConIterOfIter::new(0..len);
+        let singles: u8 = kani::any();
+        kani::assume(singles <= 2);
+        let mut delivered = 0usize;
+        let mut i = 0;
+        while i < singles { if it.next().is_some() { delivered += 1; } i += 1; }
+        let op: u8 = kani::any();
+        kani::assume(op < 3);
+        if op == 1 { if let Some(c) = it.next_chunk(2) { delivered += c.values.len(); } }
+        else if op == 2 { let mut b = it.buffered_iter(2); if let Some(c) = b.next() { delivered += c.values.len(); }; }
+        kani::cover!(op == 2 && delivered == 3, "singles then a buffered chunk");
+        kani::cover!(delivered == len && len > 0, "exactly exhausted");
+        let mut rest = it.into_seq_iter();
+        let mut k = delivered;
+        while k < 5 {
+            let x = rest.next();
+            if k < len { assert!(x == Some(k), "[C10 C04 C01 iter-remainder] into_seq_iter yields exactly the undelivered remainder, in source order"); }
+            else { assert!(x.is_none(), "[C10 iter-remainder] ... and nothing else"); }
+            k += 1;
+        }
+    }
 }
